@@ -3,6 +3,7 @@ import json
 import os
 import re
 import time
+import shutil
 import e2e
 import pipe
 import vlib
@@ -32,6 +33,125 @@ def tag_ok(content):
     if not content.endswith(b"\r\n"):
         return False
     return all(LINE.match(l) for l in content[:-2].split(b"\r\n"))
+
+
+def placed_report_during_query(chk, binp):
+    """a schedule: the last missing readiness report is handled between the two reads a /provision query makes (H3 inject point).
+    Whatever the query then answers must be consistent: finished only with an empty error text (no deadline has passed here)"""
+    for missing in ("k", "r"):
+        stack = e2e.Stack(binp)
+        try:
+            others = [f for f in "rkl" if f != missing]
+            for f in others:
+                stack.ctl(f"prov call ready {f}")
+            before = stack.ctl("prov msg getstate")
+            now = int(stack.ctl("now"))
+            stack.ctl(f"pqhook {missing}")
+            ans = query(stack, now)
+            stack.ctl("khook off")
+            time.sleep(0.1)
+            after = stack.ctl("prov msg getstate")
+            chk.case(nontrivial_key=("placed-report", missing, str(ans)))
+            chk.count("placed_report_during_query")
+            d = {"schedule": f"readiness report '{FLAG[missing]}' handled between the reads of a query (tick = now)", "flags_before": before, "flags_after": after,
+                 "answer": ans}
+            if ans is None:
+                chk.disagreement("provision-query", d, "an answer", "none")
+                continue
+            names = sorted(set(re.findall(r"(ebpfProgramStatus|keyLatchStatus|proxyListenerStatus) - ", ans.get("errorMessage", ""))))
+            if ans["finished"] and names:
+                chk.violation("a query reported finished together with an error text naming a subsystem as not ready (no deadline had passed)", d,
+                              expected="finished=false, or finished=true with an empty error text", observed={"finished": True, "names": names})
+        finally:
+            stack.close()
+
+
+def through_the_key_keeper(chk, binp):
+    """the "secure channel latched" input of the query comes from the real key keeper: a channel the host reports disabled (in any
+    letter case), and a key whose attestation failed, are not "latched" - a query then is not answered finished while the
+    redirector and the key latch have not reported ready and no deadline has passed"""
+    import keeper
+    scenarios = [
+        # (the host would hand out and attest a key if it were asked: a disabled channel must not ask, and is not "latched")
+        ("v1 Disabled", {"version": "1.0", "secureChannelState": "Disabled", "keyGuid": None}, "g-d1", "ok"),
+        ("v1 DISABLED", {"version": "1.0", "secureChannelState": "DISABLED", "keyGuid": None}, "g-d2", "ok"),
+        ("v2 not enabled", {"version": "2.0", "secureChannelEnabled": False, "keyGuid": None}, "g-d3", "ok"),
+        ("attestation fails", {"version": "1.0", "secureChannelState": "Wireserver", "keyGuid": None}, "g-1", "http"),
+        ("acquire fails", {"version": "1.0", "secureChannelState": "WireserverAndImds", "keyGuid": None}, None, "ok"),
+    ]
+    for what, doc, newkey, att in scenarios:
+        stack = e2e.Stack(binp)
+        try:
+            kp = keeper.Keeper(None, sd=stack.sd, attach=stack, interval_ms=15)
+            plan = {"status": {"kind": "doc", "doc": doc}, "attest": ({"kind": "ok"} if att == "ok" else {"kind": "http", "code": 500}),
+                    "acquire": ({"kind": "key", "guid": newkey, "key": "ab" * 32} if newkey else {"kind": "http", "code": 500})}
+            for _ in range(2):
+                if kp.step(plan, kick=True) is None:
+                    break
+            flags = stack.ctl("prov msg getstate")
+            now = int(stack.ctl("now"))
+            ans = query(stack, now)
+            chk.case(nontrivial_key=("keeper-latched-input", what))
+            chk.count("queries_through_key_keeper")
+            d = {"host_status": doc, "scenario": what, "flags": flags, "answer": ans, "agent": stack.ctl("kstate")}
+            if ans is None:
+                chk.disagreement("provision-query", d, "an answer", "none")
+            elif ans["finished"] and flags != "rkl.":
+                chk.violation("provisioning reported finished although neither all three subsystems reported ready nor the deadline passed, and the "
+                              "host does not have a latched key with this guest", d, expected="finished=false", observed="finished=true")
+            kp.close()
+        finally:
+            stack.close()
+
+
+def tag_replaced_by_rename_only(chk, binp):
+    """syscall trace of the file operations on status.tag while it is published several times: once it exists, the final name may
+    only be the target of a rename (an unlink, or opening it for writing, opens a window in which a reader finds it missing or partial)"""
+    import vlib as _v
+    sd = _v.scratch_dir("c16s")
+    log = os.path.join(sd, "strace.txt")
+    stack = e2e.Stack(binp, wrapper=["strace", "-f", "-o", log, "-e", "trace=unlink,unlinkat,rename,renameat,renameat2,openat,open,creat,truncate,ftruncate"])
+    try:
+        tag = os.path.join(stack.sd, "keys", "status.tag")
+        for step in ("timeup", "reset", "timeup", "ready r", "ready k", "ready l", "reset", "timeup", "timeup"):
+            stack.ctl("prov call " + step)
+            time.sleep(0.03)
+        published = os.path.exists(tag)
+    finally:
+        stack.close()
+    ops = []
+    try:
+        for line in open(log, errors="replace"):
+            if '/status.tag"' not in line:
+                continue
+            mm = re.search(r"\b(unlink|unlinkat|rename|renameat|renameat2|openat|open|creat|truncate)\((.*)$", line)
+            if not mm:
+                continue
+            call, rest = mm.group(1), mm.group(2)
+            if call.startswith("rename"):
+                # the final name must be the destination (last path argument), never the source
+                paths = re.findall(r'"([^"]*)"', rest)
+                ops.append("rename-to" if paths and paths[-1].endswith("/status.tag") and not paths[0].endswith("/status.tag") else "rename-from")
+            elif call.startswith("unlink"):
+                ops.append("unlink" if "= 0" in rest else "unlink-failed")
+            elif call in ("open", "openat"):
+                ops.append("open-write" if re.search(r"O_WRONLY|O_RDWR|O_TRUNC|O_CREAT", rest) else "open-read")
+            else:
+                ops.append(call)
+    except OSError:
+        chk.broken.append({"kind": "harness", "name": "strace (status.tag)", "why": "no trace"})
+        return
+    finally:
+        shutil.rmtree(sd, ignore_errors=True)
+    chk.case(nontrivial_key=("tag-syscalls", tuple(ops)))
+    chk.count("tag_syscalls", len(ops))
+    chk.count("tag_renames", ops.count("rename-to"))
+    bad = [o for o in ops if o in ("unlink", "open-write", "rename-from", "creat", "truncate")]
+    if not published or ops.count("rename-to") < 2:
+        chk.broken.append({"kind": "gate", "name": "status.tag syscall stage", "why": "tag not published at least twice: %r" % ops})
+    elif bad:
+        chk.violation("status.tag was modified in place / removed instead of being replaced by one rename", {"file_operations_on_status.tag": ops},
+                      expected="rename-to only", observed=bad, finding_key="tag-not-atomic")
 
 
 def run(chk):
@@ -134,7 +254,11 @@ def run(chk):
                     latched = [s for s in steps if s[0] == "chan"]
                     lat = bool(latched) and latched[-1][1] not in ("disabled", "Unknown")
                     state_before = stack.ctl("prov msg getstate")
+                    stack.ctl("prov trace")
                     ans = query(stack, tick)
+                    qtr = [x for x in stack.ctl("prov trace").split(",") if x in ("GetProvisionFinished", "GetState")]
+                    if qtr != ["GetProvisionFinished", "GetState"]:
+                        chk.disagreement("program-query", {"tick": kind}, ["GetProvisionFinished", "GetState"], qtr)
                     mq = {"absent": "prov spawn query 0 %d", "zero": "prov spawn query 0 %d", "neg": "prov spawn query -5 %d",
                           "old": "prov spawn query 1 %d", "now": "prov spawn querynow %d", "future": "prov spawn query 1000000000 %d"}[kind] % (1 if lat else 0)
                     m += [mq, "prov run 0", "prov run 0"]
@@ -191,6 +315,9 @@ def run(chk):
                 chk.sample({"history": desc, "model_ops": m[:10], "model_out": outs[:10]})
         finally:
             stack.close()
+    placed_report_during_query(chk, binp)
+    tag_replaced_by_rename_only(chk, binp)
+    through_the_key_keeper(chk, binp)
     chk.coverage["rule"] = ("histories of 6-25 operations on the real actor/listener: the real readiness functions, reset, deadline handler "
                             "(each checked against the model program through the H3 message trace), raw message-level interleavings of a "
                             "readiness report with a reset, channel-state changes, and real /provision queries with ticks {absent, 0, negative, "
